@@ -284,7 +284,7 @@ fn scrape<const K: usize>(via_path: bool, unknown_between: bool) {
 macro_rules! qh {
     ($name:ident, $body:expr) => {
         #[kani::proof]
-        #[kani::unwind(24)]
+        #[kani::unwind(40)]
         #[kani::stub(std::backtrace::Backtrace::capture, crate::backtrace_stub)]
         #[kani::stub(alloc::fmt::format, crate::format_stub)]
         #[kani::stub(std::arch::x86_64::__cpuid_count, zeros)]
